@@ -382,7 +382,53 @@ def rules_base_evaluator(run):
             run.check(good, r, m.short, "'event' is exposed to the %s of transitions only" % kind, 'exposure is %s' % [(q.unparse(v)[:30], at) for v, at in cs], c)
 
 
+def rules_always_asked(run):
+    """The evaluator is asked for the conditions of every kind whenever contracts are checked - also for an element that declares none of that kind:
+    evaluate_preconditions is where the context is frozen for __old__, so skipping the call for an element without preconditions leaves its postconditions and
+    invariants without __old__."""
+    r = run.rule('C08.9', 'with contract checking on, _evaluate_contract_conditions reaches the evaluator on every path: nothing but the ignore_contract flag decides '
+                          'whether evaluate_<kind> is called (the call for preconditions also takes the __old__ snapshot)')
+    fi = run.fn('Interpreter._evaluate_contract_conditions')
+    F = fi.node
+    calls = [c for c in q.calls(F) if 'evaluate_' in q.unparse(c.func) or (isinstance(c.func, ast.Call) and 'evaluate_' in q.unparse(c.func))]
+    ev = []
+    for c in q.calls(F):
+        txt = q.unparse(c)
+        if 'self._evaluator' in txt and 'evaluate_' in txt and not any(q.in_node(c, o) and o is not c for o in q.calls(F) if 'self._evaluator' in q.unparse(o) and 'evaluate_' in q.unparse(o)
+                                                                           and q.in_node(c, o.func)):
+            ev.append(c)
+    ev = [c for c in ev if not any(c is not o and q.in_node(c, o) for o in ev)] or ev
+    run.floor(len(ev), 1, r, 'evaluator calls in the gate function')
+
+    kindp_ = q.param_names(F)[2]
+
+    def classify_g(op, l, r_, e):
+        if op == 'truthy' and l == 'self._ignore_contract':
+            return 'IGNORE'
+        if op == '==' and {l, r_} == {kindp_, "'preconditions'"}:
+            return 'PRE'
+        return None
+    for c in ev:
+        st = q.enclosing_stmt(c)
+        dnf = q.reach_dnf(st)
+        ba = q.BoolAbs(classify_g)
+        for conj in dnf:
+            for e_, pol in conj:
+                ba.ev(e_, {})
+        vs = list(ba.vars)
+        skipped = []
+        for mask in range(1 << len(vs)):
+            val = {v: bool(mask >> i_ & 1) for i_, v in enumerate(vs)}
+            if not val.get('IGNORE') and not q.dnf_holds(ba, dnf, val):
+                if 'PRE' in vs and not val.get('PRE'):
+                    continue      # postconditions / invariants of an element that has none: nothing to evaluate, and no snapshot is taken for those kinds
+                skipped.append(sorted(v for v in vs if v not in ('IGNORE', 'PRE')))
+        run.check(not skipped, r, fi.short, 'the evaluator is asked whenever contracts are not ignored', 'the call is skipped depending on %s: an element without conditions of '
+                  'one kind gets no __old__ snapshot for the others' % (skipped[0] if skipped else ''), c)
+
+
 def check(run):
+    run.guard(rules_always_asked, run)
     run.guard(rules_predicates, run)
     run.guard(rules_base_evaluator, run)
     run.guard(rules_points, run)
